@@ -83,6 +83,30 @@ def gevent_worker_class():
     return EvGeventWorker
 
 
+def eventlet_worker_class():
+    """The real EventletWorker on the eventlet shim (simkit.eventlet_shim); overrides only emit simulator events."""
+    from simkit import eventlet_shim
+    ge = eventlet_shim.install(seams)
+
+    class EvEventletWorker(ge.EventletWorker):
+        def handle(self, listener, client, addr):
+            s = facade.sim()
+            s.ev(current_task().name, "handle-begin", client.fd)
+            try:
+                return super().handle(listener, client, addr)
+            finally:
+                s.ev(current_task().name, "handle-end", client.fd)
+    return EvEventletWorker
+
+
+def worker_class(kind):
+    if kind == "gevent":
+        return gevent_worker_class()
+    if kind == "eventlet":
+        return eventlet_worker_class()
+    return {"sync": EvSyncWorker, "gthread": EvThreadWorker}[kind]
+
+
 class Client:
     """A scripted peer: runs as a task of the pseudo-process 'clients'."""
 
@@ -357,7 +381,7 @@ class WorkerWorld:
         seams.TIME.sleep(1e7)
 
     def start_worker(self):
-        cls = gevent_worker_class() if self.kind == "gevent" else {"sync": EvSyncWorker, "gthread": EvThreadWorker}[self.kind]
+        cls = worker_class(self.kind)
 
         def main():
             cfg = Config()
